@@ -3,6 +3,8 @@ package main
 import (
 	"fmt"
 	"os"
+	"strconv"
+	"strings"
 
 	"github.com/MinterTeam/minter-go-node/coreV2/types"
 	"verif/harness/h"
@@ -13,28 +15,26 @@ func main() {
 	if err != nil {
 		panic(err)
 	}
+	target, _ := strconv.ParseInt(os.Args[2], 10, 64)
+	needle := os.Args[3]
 	types.CurrentChainID = types.ChainID(hist.ChainID)
 	gen := hist.GenesisOf()
 	w := &h.World{ValOwner: map[types.Pubkey]*h.Key{}, ValCtl: map[types.Pubkey]*h.Key{}, InitialHeight: hist.InitialHeight}
-	s := h.NewSim("dbg", 1, 0, gen, w, h.NodeOpts{StakePeriod: hist.StakePeriod, ExpirePeriod: hist.ExpirePeriod, KeepLastStates: hist.KeepLast}, h.Rng(1, "x", 0))
-	s.DiskEvery = 1
+	opts := h.NodeOpts{StakePeriod: hist.StakePeriod, ExpirePeriod: hist.ExpirePeriod, KeepLastStates: hist.KeepLast}
+	s := h.NewSim("dbg", 1, 0, gen, w, opts, h.Rng(1, "x", 0))
 	for i := range hist.Blocks {
 		req, metas := hist.Blocks[i].Req()
-		res := s.RunBlock(req, metas, nil)
-		if res == nil || s.PostDisk == nil {
-			break
-		}
-		if d := h.DiffExports(s.Post, s.PostDisk, 5); len(d) > 0 {
-			fmt.Println("height", req.Height, "live!=disk", d)
-			for i, dd := range res.Deliver {
-				fmt.Printf("   tx %d type %02x code %d\n", i, metas[i].Type, dd.Code)
-			}
-			fmt.Println("   valupd", len(res.End.ValidatorUpdates), "live n", len(s.Post.Validators), "disk n", len(s.PostDisk.Validators), "lastver", s.N.LastVersion())
-			for _, v := range s.N.App.CurrentState().Validators().GetValidators() {
-				fmt.Println("   live val", v.PubKey.String()[:10], v.IsToDrop(), v.GetTotalBipStake())
-			}
-			for _, v := range s.PostDisk.Validators {
-				fmt.Println("   disk val", v.PubKey.String()[:10], v.TotalBipStake)
+		s.RunBlock(req, metas, nil)
+		if req.Height == target {
+			e, _ := s.N.DiskExport()
+			h.CompleteExport(s.N, e)
+			b := h.NewNode(opts)
+			b.InitChain(e, req.Height+1, req.Time)
+			e2 := b.App.CurrentState().Export()
+			for _, l := range h.DiffExports(e, &e2, 0) {
+				if strings.Contains(l, needle) {
+					fmt.Println(l)
+				}
 			}
 			break
 		}
